@@ -184,6 +184,20 @@ contract(F + "AbstractDissimilarity._compute_alignment_disorders",
                  # C09-I4: with a symmetric dissimilarity the unitary disorder does not depend on the annotators' slots (n = 2, 3)
                  Lemma("ud_perm_2", "PSAp(u, 2, 0) == PSA(u, 2, 0)", binders=[("u", "Int")], hyps=["na == 2", "permuted(u, 2)"],
                        hints=["PSA(u, 2, 0) == PD(u, 1, 0)", "PSAp(u, 2, 0) == PDp(u, 1, 0)"]),
+                 Lemma("ud_perm_5", "PSAp(u, 5, 0) == PSA(u, 5, 0)", binders=[("u", "Int")], hyps=["na == 5", "permuted(u, 5)"],
+                       hints=["PSA(u, 2, 0) == PD(u, 1, 0)",
+                              "PSA(u, 3, 0) == PD(u, 1, 0) + PD(u, 2, 0) + PD(u, 2, 1)",
+                              "PSA(u, 4, 0) == PD(u, 1, 0) + PD(u, 2, 0) + PD(u, 2, 1) + PD(u, 3, 0) + PD(u, 3, 1) + PD(u, 3, 2)",
+                              "PSA(u, 5, 0) == PD(u, 1, 0) + PD(u, 2, 0) + PD(u, 2, 1) + PD(u, 3, 0) + PD(u, 3, 1) + PD(u, 3, 2) + PD(u, 4, 0) + PD(u, 4, 1) + PD(u, 4, 2) + PD(u, 4, 3)",
+                              "PSAp(u, 2, 0) == PDp(u, 1, 0)",
+                              "PSAp(u, 3, 0) == PDp(u, 1, 0) + PDp(u, 2, 0) + PDp(u, 2, 1)",
+                              "PSAp(u, 4, 0) == PDp(u, 1, 0) + PDp(u, 2, 0) + PDp(u, 2, 1) + PDp(u, 3, 0) + PDp(u, 3, 1) + PDp(u, 3, 2)",
+                              "PSAp(u, 5, 0) == PDp(u, 1, 0) + PDp(u, 2, 0) + PDp(u, 2, 1) + PDp(u, 3, 0) + PDp(u, 3, 1) + PDp(u, 3, 2) + PDp(u, 4, 0) + PDp(u, 4, 1) + PDp(u, 4, 2) + PDp(u, 4, 3)"]),
+                 Lemma("ud_perm_4", "PSAp(u, 4, 0) == PSA(u, 4, 0)", binders=[("u", "Int")], hyps=["na == 4", "permuted(u, 4)"],
+                       hints=["PSA(u, 2, 0) == PD(u, 1, 0)", "PSA(u, 3, 0) == PD(u, 1, 0) + PD(u, 2, 0) + PD(u, 2, 1)",
+                              "PSA(u, 4, 0) == PD(u, 1, 0) + PD(u, 2, 0) + PD(u, 2, 1) + PD(u, 3, 0) + PD(u, 3, 1) + PD(u, 3, 2)",
+                              "PSAp(u, 2, 0) == PDp(u, 1, 0)", "PSAp(u, 3, 0) == PDp(u, 1, 0) + PDp(u, 2, 0) + PDp(u, 2, 1)",
+                              "PSAp(u, 4, 0) == PDp(u, 1, 0) + PDp(u, 2, 0) + PDp(u, 2, 1) + PDp(u, 3, 0) + PDp(u, 3, 1) + PDp(u, 3, 2)"]),
                  Lemma("ud_perm_3", "PSAp(u, 3, 0) == PSA(u, 3, 0)", binders=[("u", "Int")], hyps=["na == 3", "permuted(u, 3)"],
                        hints=["PSA(u, 2, 0) == PD(u, 1, 0)", "PSA(u, 3, 0) == PD(u, 1, 0) + PD(u, 2, 0) + PD(u, 2, 1)",
                               "PSAp(u, 2, 0) == PDp(u, 1, 0)", "PSAp(u, 3, 0) == PDp(u, 1, 0) + PDp(u, 2, 0) + PDp(u, 2, 1)"]),
